@@ -382,7 +382,7 @@ def check_json(res, fmt, text, features, shown, case):
             if (jt or None) != (mt or None):
                 res.fail("C15.json.docstring", "%s: step %r text %r vs model %r" % (fmt, st_.name, jt, mt))
             jtab = j.get("table")
-            if st_.table:
+            if st_.table is not None:       # (not truthiness: a heading-only table is a table)
                 want = {"headings": list(st_.table.headings), "rows": [list(r.cells) for r in st_.table.rows]}
                 if jtab != want:
                     res.fail("C15.json.table", "%s: step %r table %r vs model %r" % (fmt, st_.name, jtab, want))
@@ -459,7 +459,7 @@ def check_readback(res, fmt, data, text, elements, shown, features, case):
                          % (fmt, xm.name, xb.status.name, xm.status.name))
             if (xb.text or None) != (str(xm.text) if xm.text else None):
                 res.fail("C15.readback.docstring", "%s read back: step %r text %r vs %r" % (fmt, xm.name, xb.text, xm.text))
-            if xm.table and (xb.table is None or list(xb.table.headings) != list(xm.table.headings) or
+            if xm.table is not None and (xb.table is None or list(xb.table.headings) != list(xm.table.headings) or
                              [list(r.cells) for r in xb.table.rows] != [list(r.cells) for r in xm.table.rows]):
                 res.fail("C15.readback.table", "%s read back: step %r table differs" % (fmt, xm.name))
 
